@@ -127,7 +127,7 @@ func main() {
 	b := &bb{w: w, r: rand.New(rand.NewSource(px.Seed())), reported: map[string]bool{}, counts: map[string]int{}, thorough: *tier == "thorough"}
 	reps := *n
 	if reps == 0 {
-		reps = 7 // >= the number of modes of any scenario (see cycle)
+		reps = 8 // >= the number of modes of any scenario (see cycle)
 		if *tier == "thorough" {
 			reps = 60
 		}
